@@ -128,7 +128,8 @@ def shard(acc, tier, idx, n):
     for term in (None, 3):
         isa = probe_isa(16, 'little', cstr_terminator=term, embedded_strings=True)
         tb = 0 if term is None else term
-        for lab, text in itertools.product(('e', 'msg', '_f9', '.q'), ('{L}: x', 'the: {L}: end {L}:', 'a{L}:b', '{L}', ':{L}: :')):
+        for lab, text in itertools.product(('e', 'msg', '_f9', '.q'), ('{L}: x', 'the: {L}: end {L}:', 'a{L}:b', '{L}', ':{L}: :',
+                                                                             'Name:   value  =  1', 'a\tb  c', '  lead and trail  ')):      # runs of blanks and a tab inside a labelled string
             t = text.replace('{L}', lab)
             data = [ord(c) for c in t]
             for directive, body in (('.byte', data), ('.cstr', data + [tb]), ('.asciiz', data + [tb]), ('', data + [tb])):
